@@ -60,7 +60,8 @@ func (c10) Probes() []string {
 }
 
 func mutateReq(r *R, q Req, other []Req) Req {
-	names := []string{hOrigin, hACRM, hACRH, hACRPN, "X-Unrelated", "Cookie"}
+	names := []string{hOrigin, hACRM, hACRH, hACRPN, hOrigin, hACRM, hACRH, hACRPN, "X-Unrelated", "Cookie", "Sec-Fetch-Mode", "Sec-Fetch-Site", "Referer",
+		"Authorization", "Content-Type", "Access-Control-Request-Local-Network", "X-Forwarded-For", "Accept", "User-Agent", "Access-Control-Request-Credentials"}
 	n := r.Range(1, 2)
 	for i := 0; i < n; i++ {
 		k := pick(r, names)
@@ -76,7 +77,10 @@ func mutateReq(r *R, q Req, other []Req) Req {
 			}
 		case 2:
 			vals := map[string][]string{hOrigin: {"https://evil.test", "https://example.com", "null"}, hACRM: {"PUT", "GET", "UNLISTED"},
-				hACRH: {"x-foo", "authorization", "content-type,x-foo"}, hACRPN: {"true", "false"}, "X-Unrelated": {"1", "2"}, "Cookie": {"a=b"}}[k]
+				hACRH: {"x-foo", "authorization", "content-type,x-foo"}, hACRPN: {"true", "false"}, "X-Unrelated": {"1", "2"}, "Cookie": {"a=b"},
+				"Sec-Fetch-Mode": {"no-cors", "cors", "navigate"}, "Sec-Fetch-Site": {"cross-site", "same-origin"}, "Referer": {"https://example.com/"},
+				"Authorization": {"Bearer x"}, "Content-Type": {"application/json", "text/plain"}, "Access-Control-Request-Local-Network": {"true"},
+				"X-Forwarded-For": {"10.0.0.1"}, "Accept": {"*/*"}, "User-Agent": {"curl/8"}, "Access-Control-Request-Credentials": {"true"}}[k]
 			q = q.with(k, pick(r, vals))
 		case 3: // multi-valued
 			if v, ok := q.get(k); ok && len(v) > 0 {
@@ -312,7 +316,7 @@ func (c10) Exec(plan any, c *Ctx) *Violation {
 				!hvEqual(reqVals(e.req, "access-control-request-private-network"), reqVals(q, "access-control-request-private-network")) {
 				c.hit("hit_differs_in_preflight_headers")
 			}
-			if !hvEqual(reqVals(e.req, "x-unrelated"), reqVals(q, "x-unrelated")) || !hvEqual(reqVals(e.req, "cookie"), reqVals(q, "cookie")) {
+			if e.req.without(hOrigin).without(hACRM).without(hACRH).without(hACRPN).String() != q.without(hOrigin).without(hACRM).without(hACRH).without(hACRPN).String() {
 				c.hit("hit_differs_in_unrelated_header")
 			}
 		}
